@@ -103,6 +103,7 @@ C12_ResetFresh  == [][lastOp' = "Reset" /\ hist' # hist =>
 
 \* MC configs hide the history; GEN configs print it.
 View == <<cvars, lastOp, lastErr, Len(hist)>>
+GenView == <<hist, mode = "none">>
 Maximal == Len(hist) = MaxLen
 PrintHist == Maximal => PrintT("BEH " \o ToJson(hist))
 =============================================================================
